@@ -202,6 +202,22 @@ func runC12(c *core.Ctx) {
 			gap := r.Pick(0, 1, 1, 1, 2, 15, 16, 17, 18, 65535, r.Intn(40), int(r.U16()), 32766+r.Intn(5), 65536-r.Intn(20))
 			cur += uint16(gap)
 		}
+		if r.Chance(1, 5) {
+			// a completely full pair (a number and its 16 successors, ascending), then a few numbers
+			// from the neighbourhood in any order (repeats of covered numbers, numbers just below the
+			// pair, just above it), then perhaps a far one
+			base := r.B16()
+			in = in[:0]
+			for i := 0; i <= 16; i++ {
+				in = append(in, base+uint16(i))
+			}
+			for i := 1 + r.Intn(6); i > 0; i-- {
+				in = append(in, base+uint16(r.Intn(57))-20)
+			}
+			if r.Bool() {
+				in = append(in, base+uint16(r.Pick(200, 300, 32768, 40000)))
+			}
+		}
 		switch r.Intn(5) {
 		case 0: // reversed
 			for i, j := 0, len(in)-1; i < j; i, j = i+1, j-1 {
